@@ -128,3 +128,8 @@ func OLen(r int, path string) int
 
 // OKind: dynamic kind of an interface{} value: 0 nil, 1 bool, 2 number, 3 string, 4 other.
 func OKind(r int, path string) int
+
+// CompareDecls compares two emitted files at the declaration level; "" = they relate as
+// mode prescribes ("only-models": same type declarations, no funcs/vars in the second;
+// "tags": equal after erasing struct tags; "no-yaml": second = first minus YAML code).
+func CompareDecls(a, b, mode string) string
